@@ -151,6 +151,34 @@ def r_var_identity(rule, root=None):
         rule.bad("var|new|source", "Var::new must wrap an index drawn from a process-wide source (rand::random::<u64>() or one global atomic counter) in Var::V(VarIndex(..))", A.where(fn))
 
 
+
+SHAPE = "fidget-core/src/shape/mod.rs"
+
+
+def r3c_bind_check(rule, root=None):
+    """ShapeVars::check (behind Shape::bind / BoundShape): *every* named variable of the shape is looked up in the
+    supplied map, and a missing one is the error"""
+    fn = A.find_fn(SHAPE, "check", self_ty="ShapeVars", root=root)
+    calls = [c for c in A.find(fn["body"], "MethodCall") if c["method"] in ("contains_key", "get") and A.ident(A.strip(c["recv"])) == "self" or (c["method"] in ("contains_key", "get") and str(A.ftxt(c["recv"])) in ("self.0", "self"))]
+    if not calls:
+        rule.lost("the map lookup (`self.contains_key(..)`) of ShapeVars::check")
+        return
+    okall = True
+    for c in calls:
+        bs = A.enclosing_binders(fn["body"], c) or []
+        if any("vars()" in src for _n, src, _node in bs):
+            continue
+        okall = False
+        rule.bad("ShapeVars::check|per-variable", "ShapeVars::check looks the variable up outside the iteration over the shape's variables (`%s`): only one variable is tested, and a shape with two named variables binds although one is missing" % str(A.ftxt(c))[:60], A.where(fn, c))
+    if okall:
+        rule.ok("ShapeVars::check looks up every variable of shape.inner().vars()", file=SHAPE, line=fn["ln"])
+    errs = [r_ for r_ in A.result_cases(fn["body"]) if str(A.ftxt(r_[0])).startswith("Err(MissingVar")]
+    t = str(A.ftxt(fn["body"]))
+    if errs or "Err(MissingVar" in t:
+        rule.ok("a variable that is not in the map is reported as MissingVar", file=SHAPE, line=fn["ln"])
+    else:
+        rule.bad("ShapeVars::check|error", "ShapeVars::check must return Err(MissingVar { .. }) for a variable that is not supplied", A.where(fn))
+
 def run(ctx):
     r = ctx.rule("R1", "X/Y/Z and free variables are bound by identity; the transform is applied in axis order", 16)
     ctx.guarded(r, SC.r_axis_binding)
@@ -192,5 +220,7 @@ def run(ctx):
 
     r = ctx.rule("R6", "a simplified function reports its parent's variable map (recycled storage never contributes one)", 6)
     ctx.guarded(r, S_.r_tail)
+    r = ctx.rule("R3c", "binding a variable set to a shape checks every named variable of the shape (a missing one is MissingVar)", 2)
+    ctx.guarded(r, r3c_bind_check)
     # named variables reach the inner evaluators through recycled scratch rows (C14j-1: a row "already holding" the value)
     ctx.include('C10', 'variable values are bound through recycled scratch rows', only=('R1s', 'R1v'))
